@@ -13,7 +13,8 @@ LEVEL = "exploration"
 RULE = ("Seeded plans: a byzantine agent over a universe of 4-12 OIDs (inside / equal to / before / after the roots) whose "
         "GETNEXT function is the sorted successor overridden by 0-4 explicit deviations (requested OID, repetition index) -> "
         "(returned OID | endOfMibView): same OID, smaller OID, cycles, leaving a subtree and coming back; operations walk, "
-        "multiwalk (1-3 roots), bulkwalk (bulk 1-4), table, bulktable; strict and lenient mode. Non-trivial: >=1 deviation "
+        "multiwalk (1-3 roots), bulkwalk (bulk 1-4), table, bulktable; strict and lenient mode; in 15% of the bulk plans the agent "
+        "answers with an EMPTY binding list from its k-th GETBULK request on. Non-trivial: >=1 deviation "
         "was actually served or >=3 requests were made; distinct = distinct (operation, mode, bulk, number of roots, sequence "
         "of (advance|stall|back|eom) classes of the answers served, outcome class).")
 ASSUMPTIONS = [
@@ -23,7 +24,7 @@ ASSUMPTIONS = [
     "a non-advancing repetition in a GETBULK column that has already left its root may be ignored or refused",
 ]
 PROBES = ["same_oid", "smaller_oid", "leave_and_return", "eom_midway", "bulk_nonadvance_later_rep",
-          "lenient", "faulty_raised", "all_advance"]
+          "lenient", "faulty_raised", "all_advance", "empty_bulk_response"]
 shrink_lists = [("dev",), ("universe",), ("roots",)]
 OPS = ["walk", "multiwalk", "bulkwalk", "table", "bulktable"]
 
@@ -62,8 +63,12 @@ def plan_for(tier: str, seed: int, i: int) -> dict:
             to = rng.choice(universe)       # anything: smaller, cycle, jump out and back
         rep = rng.choice([None, None, 0, 1, 2])
         dev.append((frm, rep, to))
+    bulk = rng.randrange(1, 5)
+    errors = rng.choice(["strict", "strict", "warn"])
+    # another misbehaviour: from its k-th GETBULK request on the agent answers with an empty binding list (status 0)
+    empty_from = rng.randrange(1, 4) if op in ("bulkwalk", "bulktable") and rng.random() < 0.15 else None
     return {"prop": ID, "op": op, "roots": roots, "universe": universe, "dev": dev,
-            "bulk": rng.randrange(1, 5), "errors": rng.choice(["strict", "strict", "warn"]),
+            "bulk": bulk, "errors": errors, "empty_from": empty_from,
             "proto": {"version": "v2c", "community": "public"}}
 
 
@@ -84,6 +89,10 @@ def simplify(plan: dict):
         p = dict(plan); p["bulk"] = 1; yield p
     if plan["errors"] == "warn":
         p = dict(plan); p["errors"] = "strict"; yield p
+    if plan.get("empty_from"):
+        p = dict(plan); p["empty_from"] = None; yield p
+        if plan["empty_from"] > 1:
+            p = dict(plan); p["empty_from"] = 1; yield p
 
 
 def execute(plan: dict) -> dict:
@@ -110,6 +119,17 @@ def execute(plan: dict) -> dict:
         served.append((oid, rep, res))
         return res
 
+    n_bulk = [0]
+    empty_served = [0]
+
+    def hook_pdu(req: dict, resp: dict) -> Optional[dict]:
+        if plan.get("empty_from") and req["pdu"]["tag"] == S.PDU_BULK:
+            n_bulk[0] += 1
+            if n_bulk[0] >= plan["empty_from"]:
+                empty_served[0] += 1
+                return dict(resp, vbs=[])
+        return resp
+    agent.hook_pdu = hook_pdu
     agent.successor_fn = succ
     agent.cap = 3 * (len(universe) + len(roots)) + 5
     w.add_agent(agent)
@@ -235,7 +255,7 @@ def execute(plan: dict) -> dict:
         "eom_midway": int("eom" in classes[:-1]),
         "bulk_nonadvance_later_rep": int(op in ("bulkwalk", "bulktable") and any_nonadv and not relevant_nonadv),
         "lenient": int(lenient), "faulty_raised": int(excname == "FaultySNMPImplementation"),
-        "all_advance": int(not any_nonadv),
+        "all_advance": int(not any_nonadv), "empty_bulk_response": int(empty_served[0] > 0),
     }
     counters = dict(w.net.counters)
     for k, v in probes.items():
@@ -246,7 +266,7 @@ def execute(plan: dict) -> dict:
     shape = repr((op, plan["errors"], plan["bulk"] if "bulk" in op else 0, len(roots), tuple(classes[:30]), excname))
     out = {
         "violation": violation, "digest": w.net.digest(), "triggers": triggers, "counters": counters,
-        "shape": shape, "nontrivial": dev_served > 0 or len(reqs) >= 3,
+        "shape": shape, "nontrivial": dev_served > 0 or len(reqs) >= 3 or empty_served[0] > 0,
         "sim_s": w.loop.time(), "exchanges": agent.exchanges,
         "summary": "%s reqs=%d classes=%s exc=%s" % (op, len(reqs), classes[:12], excname),
     }
